@@ -199,17 +199,18 @@ class _Ctx:
                     c.check_index(idx, arr.axes[0], st.target, 'store-index')
             return None
         if isinstance(st, ast.For):
-            # accumulate idiom  out = []; for t in it: [if c:] out.append(elt)   ==  out = [elt for t in it if c]
-            body, ifs = st.body, []
-            while len(body) == 1 and isinstance(body[0], ast.If) and not body[0].orelse:
-                ifs.append(body[0].test); body = body[0].body
-            if (len(body) == 1 and isinstance(body[0], ast.Expr) and isinstance(body[0].value, ast.Call) and isinstance(body[0].value.func, ast.Attribute)
-                    and body[0].value.func.attr == 'append' and isinstance(body[0].value.func.value, ast.Name) and len(body[0].value.args) == 1):
-                nm = body[0].value.func.value.id
-                cur = env.get(nm)
-                if cur is not None and cur.kind == 'tuple' and not cur.items:
-                    fake = ast.ListComp(elt=body[0].value.args[0], generators=[ast.comprehension(target=st.target, iter=st.iter, ifs=ifs, is_async=0)])
-                    env[nm] = c.comp(fake, env)
+            # accumulate idiom  out = []; for t in it: [tmp = ..] [if c: continue] [if c:] out.append(elt) / out[k] = v  ==  a comprehension
+            acc = _loop_as_comprehension(st)
+            if acc is not None:
+                target, kind, fake = acc
+                cur = c.ev(target, env) if isinstance(target, ast.Name) and target.id in env else (c.ev(target, env) if isinstance(target, ast.Attribute) else None)
+                empty = cur is not None and ((cur.kind == 'tuple' and not cur.items) or cur.kind == 'dictlit')
+                if empty:
+                    val = c.comp(fake, env)
+                    if isinstance(target, ast.Name): env[target.id] = val
+                    else:
+                        b = c.ev(target.value, env)
+                        if b.kind == 'obj': b.fields[target.attr] = val
                     return None
             c.bind_loop(st.target, c.iter_of(c.ev(st.iter, env)), env)
             return c.block(st.body, env)
@@ -505,7 +506,8 @@ class _Ctx:
         filt = None
         for cond in g.ifs:
             c.ev(cond, env2)
-            filt = _filter_key(cond, g.target) if filt is None else filt + '&' + _filter_key(cond, g.target)
+            fk_ = _filter_key(cond, g.target, lambda nm: env2.get(nm))
+            filt = fk_ if filt is None else filt + '&' + fk_
         base = it.space if it.kind == 'iter' and it.space is not None else U('comp')
         if filt is not None and base[0] == 'S' and filt.startswith('pred:') and base[1] in ('branch', 'node'):
             res = ('S', filt[5:], base[2])          # selection of all branches / nodes by a predicate defines a new S space
@@ -577,8 +579,10 @@ class _Ctx:
         if fv.kind == 'func':
             if fv.fn.name == 'filter' and fv.mod.short.endswith('label_mapping') and args and args[0].kind == 'map':
                 fk = 'pred:?'
-                if len(args) > 1 and args[1].kind == 'closure' and isinstance(args[1].fn, ast.Lambda):
-                    fk = _filter_key(args[1].fn.body, args[1].fn.args.args[0].arg if args[1].fn.args.args else None)
+                if len(args) > 1 and args[1].kind == 'closure':
+                    fk = _closure_key(args[1]) or fk
+                elif len(args) > 1 and args[1].kind == 'func':
+                    fk = _closure_key(args[1]) or fk
                 sp = ('SUB', args[0].space, fk)
                 return V('map', space=sp if flat(sp) != [args[0].space] else args[0].space)
             return c.it.call_function(fv.mod, fv.fn, args, kw, None, None, c.depth + 1) or TOP
@@ -647,6 +651,7 @@ class _Ctx:
             it = c.iter_of(a)
             sp = it.space if it.space is not None else U('enumerate')
             return V('iter', elem=V('pair', a=V('index', space=sp, offset=None), b=it.elem), space=sp)
+        if name in ('list', 'tuple') and not args: return V('tuple', items=[])
         if name in ('list', 'tuple'):
             if a.kind == 'dictparam': return V('list', space=('ORD', a.name), elem=V('label', space=('ORD', a.name)))
             if a.kind in ('list', 'idxlist'): return a
@@ -671,6 +676,8 @@ class _Ctx:
             return V('iter', elem=V('tuple', items=[i.elem for i in its]), space=its[0].space if its else U('zip'))
         if name in ('float', 'int', 'complex', 'abs', 'sum', 'min', 'max', 'round', 'any', 'all', 'str', 'bool'): return V('scalar')
         if name == 'range': return V('iter', elem=V('scalar'), space=U('range'))
+        if name == 'dict' and not args: return V('dictlit')
+        if name in ('list', 'tuple') and not args: return V('tuple', items=[])
         if name == 'set':
             return a
         return None
@@ -753,6 +760,53 @@ class _Ctx:
 
 
 # ---------------------------------------------------------------------------------------------------- helpers
+def _loop_as_comprehension(st: ast.For):
+    """(accumulator target expr, kind, equivalent comprehension node) for an accumulate loop, else None.  Local temporaries are
+    substituted into the element expression; `if c: continue` becomes the filter `not c`."""
+    import copy
+    gens = [ast.comprehension(target=st.target, iter=st.iter, ifs=[], is_async=0)]
+    subst = {}
+    result = []
+
+    class _Sub(ast.NodeTransformer):
+        def visit_Name(self, n):
+            if isinstance(n.ctx, ast.Load) and n.id in subst: return copy.deepcopy(subst[n.id])
+            return n
+
+    def sx(e): return _Sub().visit(copy.deepcopy(e))
+
+    def walk(stmts, level):
+        for i, s_ in enumerate(stmts):
+            if isinstance(s_, ast.Pass): continue
+            if isinstance(s_, ast.Assign) and len(s_.targets) == 1 and isinstance(s_.targets[0], ast.Name):
+                subst[s_.targets[0].id] = sx(s_.value); continue
+            if isinstance(s_, ast.If) and not s_.orelse and len(s_.body) == 1 and isinstance(s_.body[0], ast.Continue):
+                gens[level].ifs.append(ast.UnaryOp(op=ast.Not(), operand=sx(s_.test))); continue
+            if isinstance(s_, ast.If) and not s_.orelse and i == len(stmts) - 1:
+                gens[level].ifs.append(sx(s_.test))
+                if not walk(s_.body, level): return False
+                continue
+            if isinstance(s_, ast.Expr) and isinstance(s_.value, ast.Call) and isinstance(s_.value.func, ast.Attribute) and s_.value.func.attr in ('append', 'add') and len(s_.value.args) == 1 and i == len(stmts) - 1:
+                result.append((s_.value.func.value, 'list' if s_.value.func.attr == 'append' else 'set', sx(s_.value.args[0]), None)); continue
+            if isinstance(s_, ast.Assign) and len(s_.targets) == 1 and isinstance(s_.targets[0], ast.Subscript) and i == len(stmts) - 1:
+                result.append((s_.targets[0].value, 'dict', sx(s_.value), sx(s_.targets[0].slice))); continue
+            if isinstance(s_, ast.For) and not s_.orelse and i == len(stmts) - 1:
+                gens.append(ast.comprehension(target=s_.target, iter=sx(s_.iter), ifs=[], is_async=0))
+                if not walk(s_.body, len(gens) - 1): return False
+                continue
+            return False
+        return True
+
+    if st.orelse or not walk(st.body, 0) or len(result) != 1: return None
+    target, kind, elt, key = result[0]
+    if not isinstance(target, (ast.Name, ast.Attribute)): return None
+    if kind == 'dict': fake = ast.DictComp(key=key, value=elt, generators=gens)
+    elif kind == 'set': fake = ast.SetComp(elt=elt, generators=gens)
+    else: fake = ast.ListComp(elt=elt, generators=gens)
+    ast.fix_missing_locations(fake)
+    return target, kind, fake
+
+
 def _const_sign(v):
     if isinstance(v, ast.UnaryOp) and isinstance(v.op, (ast.USub, ast.UAdd)) and isinstance(v.operand, ast.Constant) and v.operand.value == 1:
         return -1 if isinstance(v.op, ast.USub) else 1
@@ -774,8 +828,33 @@ def _terminal_of(target, guards):
     return None
 
 
-def _filter_key(cond, target) -> str:
-    """canonical key of a label filter in a comprehension / lambda"""
+def _closure_key(v, neg=False):
+    """filter key of a predicate VALUE (named function, lambda or nested def whose body is one returned condition)"""
+    if v is None: return None
+    if v.kind == 'func' and v.fn.name.startswith('is_'):
+        return ('notpred:' if neg else 'pred:') + v.fn.name
+    if v.kind == 'closure':
+        fn = v.fn
+        body = fn.body if isinstance(fn, ast.Lambda) else None
+        if body is None:
+            from .prog import returned_expr
+            try: body = returned_expr(fn)
+            except Exception: body = None
+        if body is None: return None
+        a = fn.args.args[0].arg if fn.args.args else None
+        k = _filter_key(body, a, lambda nm: v.env.get(nm))
+        if neg:
+            if k.startswith('pred:'): return 'not' + k
+            if k.startswith('notpred:'): return k[3:]
+            if k.startswith('in:'): return 'not' + k
+            if k.startswith('notin:'): return k[3:]
+            return None
+        return k
+    return None
+
+
+def _filter_key(cond, target, lookup=None) -> str:
+    """canonical key of a label filter in a comprehension / lambda; `lookup` resolves local names bound to predicate values"""
     s = ast.unparse(cond)
     neg = False
     n = cond
@@ -792,6 +871,9 @@ def _filter_key(cond, target) -> str:
             return 'ne:zero' if ne else 'eq:zero'
     if isinstance(n, ast.Call):
         fname = n.func.attr if isinstance(n.func, ast.Attribute) else getattr(n.func, 'id', '?')
+        if lookup is not None and isinstance(n.func, ast.Name):
+            k = _closure_key(lookup(n.func.id), neg)
+            if k is not None: return k
         if fname.startswith('is_'):
             return ('notpred:' if neg else 'pred:') + fname
     return 'filter:' + s + '#' + str(next(_unk))
@@ -834,7 +916,8 @@ def mapper_space(prog: Program, mod: Module, fn: ast.FunctionDef):
     if key in cache: return cache[key]
     ret = ast.unparse(fn.returns) if fn.returns is not None else ''
     pos = params_of(fn)[0]
-    if 'LabelMapping' not in ret or len(pos) != 1 or fn.name == 'filter':
+    ann = ast.unparse(fn.args.args[0].annotation) if len(pos) == 1 and fn.args.args and fn.args.args[0].annotation is not None else None
+    if 'LabelMapping' not in ret or len(pos) != 1 or fn.name == 'filter' or (ann is not None and 'Network' not in ann and 'network' not in pos[0]):
         cache[key] = None; return None
     cache[key] = U('recursive')
     it = Interp(prog)
